@@ -61,6 +61,8 @@ package glob
 //@   ensures result != nil && len(result.Limits) == 2
 //@   ensures [limits] allstr(s, len(pattern) > 0 && pattern[0] != '*' && agree(s, pattern, litpre(pattern)) ==> inLimits(result.Limits[0], result.Limits[1], desc, s))
 //@   loop 1 invariant n == i && i <= len(pattern) && forall(j, 0, i, pattern[j] != '[' && pattern[j] != '*' && pattern[j] != '?' && pattern[j] != '\\')
+//@   loop 2 invariant b == a || slt(b, a)
+//@   split prefix: [asc.other] !desc && !(litpre(pattern) > 0 && pattern[litpre(pattern)-1] == 255) | [asc.ends-ff] !desc && litpre(pattern) > 0 && pattern[litpre(pattern)-1] == 255 | [desc.other] desc && !(litpre(pattern) > 0 && pattern[litpre(pattern)-1] == 255) | [desc.ends-ff] desc && litpre(pattern) > 0 && pattern[litpre(pattern)-1] == 255
 
 //@ func IsGlob
 //@   nopanic
